@@ -29,6 +29,7 @@ type World struct {
 	overlay map[string][]byte
 	rootPkg map[string]bool
 	modPath string
+	constErr map[string]bool // "G:pkg.name" of error variables assigned only by their package initialiser
 	specErr []string
 }
 
@@ -69,6 +70,7 @@ func loadWorld(repo string, patterns []string, libDir string, overlay map[string
 			sp.Build()
 		}
 	}
+	w.findConstErrGlobals()
 	// contract files of the loaded packages
 	for _, p := range pkgs {
 		for i, f := range p.Syntax {
@@ -274,4 +276,62 @@ func (w *World) sourceLine(p token.Pos) string {
 		return strings.Join(strings.Fields(lines[pp.Line-1]), " ")
 	}
 	return ""
+}
+
+// findConstErrGlobals: package-level variables of type error that are assigned only in the
+// package initialiser (var errX = errors.New(...)) are constants, and non-nil.
+func (w *World) findConstErrGlobals() {
+	w.constErr = map[string]bool{}
+	errT := types.Universe.Lookup("error").Type()
+	for _, sp := range w.spkgs {
+		if sp == nil {
+			continue
+		}
+		cand := map[*ssa.Global]bool{}
+		for _, m := range sp.Members {
+			if gl, ok := m.(*ssa.Global); ok {
+				if types.Identical(gl.Type().(*types.Pointer).Elem(), errT) {
+					cand[gl] = true
+				}
+			}
+		}
+		if len(cand) == 0 {
+			continue
+		}
+		initStored := map[*ssa.Global]bool{}
+		for fn := range ssautil.AllFunctions(w.prog) {
+			if fn.Pkg != sp {
+				continue
+			}
+			for _, b := range fn.Blocks {
+				for _, in := range b.Instrs {
+					st, ok := in.(*ssa.Store)
+					if !ok {
+						continue
+					}
+					gl, ok := st.Addr.(*ssa.Global)
+					if !ok || !cand[gl] {
+						continue
+					}
+					if fn.Name() == "init" && fn.Synthetic != "" {
+						// must be the result of a call (errors.New, fmt.Errorf): never nil
+						if _, isCall := st.Val.(*ssa.Call); isCall {
+							initStored[gl] = true
+						} else if _, isMI := st.Val.(*ssa.MakeInterface); isMI {
+							initStored[gl] = true
+						} else {
+							delete(cand, gl)
+						}
+					} else {
+						delete(cand, gl)
+					}
+				}
+			}
+		}
+		for gl := range cand {
+			if initStored[gl] {
+				w.constErr["G:"+sp.Pkg.Path()+"."+gl.Name()] = true
+			}
+		}
+	}
 }
